@@ -29,9 +29,9 @@ ASSUMPTIONS = [
 ]
 FLOORS = {"quick": {"connects": 6000, "mech:PLAIN": 500, "mech:LOGIN": 500,
                     "mech:OAUTHBEARER": 500, "mech:DIGEST-MD5": 500, "no-mechanism": 500},
-          "thorough": {"connects": 250000, "mech:PLAIN": 20000, "mech:LOGIN": 20000,
-                       "mech:OAUTHBEARER": 20000, "mech:DIGEST-MD5": 20000,
-                       "no-mechanism": 20000}}
+          "thorough": {"connects": 1800000, "mech:PLAIN": 100000, "mech:LOGIN": 100000,
+                       "mech:OAUTHBEARER": 100000, "mech:DIGEST-MD5": 100000,
+                       "no-mechanism": 100000}}
 SHARD_TIMEOUT = {"quick": 600, "thorough": 3000}
 
 IMPLEMENTED = ["DIGEST-MD5", "PLAIN", "LOGIN", "OAUTHBEARER"]
@@ -44,7 +44,7 @@ AUTHZ = ["", "", "admin", "ädmin", "a,b=c"]
 
 
 def plan(tier, seed):
-    n = 8000 if tier == "quick" else 300000
+    n = 8000 if tier == "quick" else 2000000
     k = 16 if tier == "quick" else 64
     return [{"w": "cfg", "n": e - s, "rs": seed * 1000003 + i}
             for i, (s, e) in enumerate(split(n, k))]
